@@ -1,4 +1,5 @@
 import DoltVerif.Lemmas.CorruptStages
+import DoltVerif.Lemmas.CorruptLookup
 /-!
 C10 — Corrupted storage files are reported, never misread.
 
@@ -276,6 +277,119 @@ theorem lookup_no_panic_full_false : ¬ lookup_no_panic_full := by
 theorem get_panics_on_short_length :
     (openFile (wTable 0 3 20) 1 >>= fun o => o.get (wAddr 20)) = .error .panicWouldOccur := by
   apply isPanic_eq; decide +kernel
+
+/-! ### the positive side of `lookup_no_panic_full`: exactly the two missing guards, as hypotheses -/
+
+theorem readAt_length {k : ReaderKind} {file : Bytes} {off len : Nat} {buff : Bytes}
+    (h : readAt k file off len = .ok buff) : buff.length = len := by
+  unfold readAt at h
+  split at h
+  · cases h
+  · cases k with
+    | osFile =>
+      simp only [] at h
+      split at h
+      · rename_i h0; injection h with h; subst h; simp at h0; simp [h0]
+      · split at h
+        · injection h with h; subst h; simp [List.length_take, List.length_drop]; omega
+        · cases h
+    | bytesReader =>
+      simp only [] at h
+      split at h
+      · cases h
+      · split at h
+        · injection h with h; subst h; simp [List.length_take, List.length_drop]; omega
+        · cases h
+
+theorem sub64_four {n : Nat} (h4 : 4 ≤ n) (hlt : n < two64) : sub64 n checksumSize = n - 4 := by
+  unfold sub64 checksumSize
+  have e4 : 4 % two64 = 4 := by decide
+  rw [e4]
+  have : n + two64 - 4 = (n - 4) + two64 := by omega
+  rw [this, Nat.add_mod_right]
+  exact Nat.mod_eq_of_lt (by omega)
+
+/-- `NewCompressedChunk` does not panic on a buffer of at least 4 bytes -/
+theorem newCompressedChunk_no_panic {buff : Bytes} (h4 : 4 ≤ buff.length) (hlt : buff.length < two64) :
+    newCompressedChunk buff ≠ .error .panicWouldOccur := by
+  rw [newCompressedChunk_eq buff _ rfl, sub64_four h4 hlt]
+  have h1 : buff.length - 4 ≤ buff.length := by omega
+  have h2 : 4 ≤ buff.length - (buff.length - 4) := by omega
+  rw [if_pos h1, if_pos h2]
+  split
+  · intro h; cases h
+  · intro h; cases h
+
+/-- the second guard dolt lacks: every record length the index yields is at least `checksumSize` -/
+def RecordLengthsOk (ti : TableIndex) : Prop :=
+  ∀ ord off len, ord < ti.count → ti.getIndexEntry ord = .ok (off, len) → 4 ≤ len
+
+/-- **lookup_no_panic_partial**: on a well-shaped index (`WF`: what `newOnHeapTableIndex` builds,
+see `openFile_wf`) `has` and `get` never panic **provided** every ordinal stored in a prefix tuple
+is below the chunk count and every record length is ≥ 4 — the two checks the Go code does not
+make (`lookup_no_panic_full_false` shows each is needed). -/
+theorem lookup_no_panic_partial (o : Open) (h : Bytes) (w : WF o.idx)
+    (hord : TableIndex.OrdinalsInRange o.idx) (hlen : RecordLengthsOk o.idx) :
+    o.has h ≠ .error .panicWouldOccur ∧ o.get h ≠ .error .panicWouldOccur := by
+  obtain ⟨e, he, hfound⟩ := TableIndex.lookup_ok w hord h
+  constructor
+  · unfold Open.has
+    simp only [bind, Except.bind, he, pure, Except.pure]
+    intro hc; cases hc
+  · unfold Open.get
+    rw [he]
+    cases e with
+    | none => intro hc; cases hc
+    | some x =>
+      obtain ⟨off, len⟩ := x
+      obtain ⟨ord, hlt, hent⟩ := hfound (off, len) rfl
+      have h4 : 4 ≤ len := hlen ord off len hlt hent
+      have h32 : len < two32 := TableIndex.getIndexEntry_len_lt hent
+      show getChunk (readAt o.kind o.data off len) ≠ _
+      cases hr : readAt o.kind o.data off len with
+      | error err =>
+        intro hc
+        have : err = .panicWouldOccur := by injection hc
+        subst this
+        unfold readAt at hr
+        split at hr
+        · cases hr
+        · cases hk : o.kind <;> rw [hk] at hr <;> simp only [] at hr <;> (repeat' split at hr) <;> cases hr
+      | ok buff =>
+        have hbl : buff.length = len := readAt_length hr
+        have hnp := @newCompressedChunk_no_panic buff (by omega) (by rw [hbl]; exact Nat.lt_trans h32 (by decide))
+        show afterChunk (newCompressedChunk buff) ≠ _
+        cases hc : newCompressedChunk buff with
+        | error err =>
+          intro hcc
+          have : err = .panicWouldOccur := by injection hcc
+          subst this; exact hnp hc
+        | ok cd =>
+          show finishGet cd ≠ _
+          unfold finishGet
+          split <;> (intro hcc; cases hcc)
+
+/-- the same for a table file opened by the store's own path: the shape `WF` is what the parser
+builds (`openFile_wf`; `hsmall` excludes the 15 GiB indexes on which the uint32 product
+`chunks1*offsetSize` wraps), and the two missing guards are the decidable checks
+`ordinalsInRangeB` / `lengthsOkB` over the parsed index. -/
+theorem lookup_no_panic_partial_file (file : Bytes) (m : Nat) (o : Open) (h : Bytes)
+    (hopen : openFile file m = .ok o) (hsmall : (m - m / 2) * offsetSize < two32)
+    (hord : ordinalsInRangeB o.idx = true) (hlen : lengthsOkB o.idx = true) :
+    o.has h ≠ .error .panicWouldOccur ∧ o.get h ≠ .error .panicWouldOccur :=
+  lookup_no_panic_partial o h (openFile_wf hopen hsmall) (ordinalsInRangeB_sound hord) (lengthsOkB_sound hlen)
+
+/-- the hypotheses hold for the valid witness file … -/
+example : (match openFile (wTable 0 7 20) 1 with
+    | .ok o => ordinalsInRangeB o.idx && lengthsOkB o.idx
+    | .error _ => false) = true := by decide +kernel
+/-- … and each of the two crashing files violates exactly one of them -/
+example : (match openFile (wTable 2 7 20) 1 with
+    | .ok o => !ordinalsInRangeB o.idx && lengthsOkB o.idx
+    | .error _ => false) = true := by decide +kernel
+example : (match openFile (wTable 0 3 20) 1 with
+    | .ok o => ordinalsInRangeB o.idx && !lengthsOkB o.idx
+    | .error _ => false) = true := by decide +kernel
 
 /-! ### manifest -/
 
